@@ -63,4 +63,10 @@ MUTANTS = [
  ('c07-crc-table', 'C07', 'pymodbus/utilities.py', "        result.append(crc)\n    return result", "        result.append(crc)\n    result[0x31] = result[0x30]\n    return result"),
  ('c07-binary-nocrc-short', 'C07', 'pymodbus/framer/binary_framer.py', "            return checkCRC(data, self._header['crc'])\n        return False\n\n    def advanceFrame", "            return checkCRC(data, self._header['crc']) or len(data) == 5\n        return False\n\n    def advanceFrame"),
  ('c07-ascii-lrc-skip-uid', 'C07', 'pymodbus/framer/ascii_framer.py', "            data = a2b_hex(self._buffer[start + 1:end - 2])\n            return checkLRC(data, self._header['lrc'])", "            data = a2b_hex(self._buffer[start + 1:end - 2])\n            return checkLRC(data, self._header['lrc']) or checkLRC(data[1:], self._header['lrc'])"),
+ # ---- C11
+ ('c11-rtu-reset-keeps-buffer', 'C11', 'pymodbus/framer/rtu_framer.py', "        self._buffer = b''\n        self._header = {}", "        self._buffer = self._buffer[:0] if len(self._buffer) < 6 else self._buffer\n        self._header = {}"),
+ ('c11-binary-no-skip', 'C11', 'pymodbus/framer/binary_framer.py', "        if start > 0:  # go ahead and skip old bad data\n            self._buffer = self._buffer[start:]\n\n        end", "        if start > 0:  # go ahead and skip old bad data\n            pass\n\n        end"),
+ ('c11-rtu-no-reset-on-failed-check', 'C11', 'pymodbus/framer/rtu_framer.py', "                _logger.debug(\"Frame check failed, ignoring!!\")\n                self.resetFrame()\n        else:", "                _logger.debug(\"Frame check failed, ignoring!!\")\n                self._header = {}\n        else:"),
+ ('c11-rtu-foreign-unit-no-reset', 'C11', 'pymodbus/framer/rtu_framer.py', "                                  \"ignoring!!\".format(self._header['uid']))\n                    self.resetFrame()\n            else:\n                _logger.debug(\"Frame check failed, ignoring!!\")\n                self.resetFrame()", "                                  \"ignoring!!\".format(self._header['uid']))\n            else:\n                _logger.debug(\"Frame check failed, ignoring!!\")\n                self.resetFrame()"),
+ ('c11-ascii-skip-disabled', 'C11', 'pymodbus/framer/ascii_framer.py', "        if start > 0:  # go ahead and skip old bad data\n            self._buffer = self._buffer[start:]\n            start = 0", "        if start > 0:  # go ahead and skip old bad data\n            return False"),
 ]
